@@ -169,12 +169,20 @@ func (e *Eval) Prepare(flags ...[]byte) error {
 	}
 
 	//
-	// If we've got the optimizer enabled then set the environment
-	// variable, so that the virtual machine knows it should
-	// run a series of optimizations.
+	// The virtual machine runs the optimizer if the environment
+	// contains a variable named OPTIMIZE.
 	//
+	// That variable is a signal from us to the machine, it is not part
+	// of the world the script lives in: the NoOptimize flag must change
+	// whether the bytecode is optimized and nothing else, so the
+	// variable exists only while the machine is being constructed and
+	// whatever the host had stored under that name is then restored.
+	//
+	previous, present := e.environment.Get("OPTIMIZE")
 	if optimize {
 		e.environment.Set("OPTIMIZE", &object.Boolean{Value: true})
+	} else {
+		e.environment.Delete("OPTIMIZE")
 	}
 
 	//
@@ -186,6 +194,12 @@ func (e *Eval) Prepare(flags ...[]byte) error {
 	// before Execute/Run are invoked - and we only take the speed hit
 	// once.
 	e.machine = vm.New(e.constants, e.instructions, e.functions, e.environment)
+
+	if present {
+		e.environment.Set("OPTIMIZE", previous)
+	} else {
+		e.environment.Delete("OPTIMIZE")
+	}
 
 	//
 	// Setup our context
